@@ -12,6 +12,8 @@
     st                            -> ok <allocs> <bytes> <privMmaps> <sharedMmaps> <nlive> <nextPage>
     cls <c>                       -> ok cur=<pg|0> pc=<n> fs=<n> g=<pg.i,…|-> pl=<pg:brk:used:free:evac:i,i…|…>
     live <addr…>                  -> ok <len>:<cap>:<tag|-> (memory of a live allocation; err if not live)
+    ptr <c>                       -> the pointer structure of class c read through pointers only (State.heap):
+                                     ok L=<slot|0> F=<pg|0> Z=<pg|0> g=<slot:prev:next,…|-> pl=<pg:prev:next:fl;slot:pip:nip,…|…|->
 -/
 import GocoinV.Model.Alloc
 import GocoinV.Base.Proto
@@ -60,6 +62,28 @@ def clsDump (s : St) (c : Nat) : String :=
     | some h => s!"{p}:{h.brk}:{h.used}:{h.free}:{Proto.boolStr h.evac}:{",".intercalate (h.freeList.map toString)}")
   s!"ok cur={cur} pc={k.pageCount} fs={k.freeSlots} g={g} pl={pl}"
 
+def slotStr : Option Slot → String
+  | some (p, i) => s!"{p}.{i}"
+  | none => "0"
+def pgStr : Option Nat → String
+  | some p => toString p
+  | none => "0"
+
+/-- everything below is read from `s.heap` by following pointers (walk fuel 2^22, as in the harness) -/
+def ptrDump (s : St) (c : Nat) : String :=
+  let g := s.heap
+  let k := g.C c
+  let fuel := 4194304
+  let gl := walk (fun x => (g.N x).next) fuel k.lists
+  let gs := joinWith "," (gl.map fun x => s!"{slotStr (some x)}:{slotStr (g.N x).prev}:{slotStr (g.N x).next}")
+  let pgs := walk (fun p => (g.H p).next) fuel k.first
+  let pl := joinWith "|" (pgs.map fun p =>
+    let h := g.H p
+    let fl := walk (fun x => (g.N x).nextInPage) fuel h.freeList
+    s!"{p}:{pgStr h.prev}:{pgStr h.next}:{slotStr h.freeList};" ++
+      ",".intercalate (fl.map fun x => s!"{slotStr (some x)}:{slotStr (g.N x).prevInPage}:{slotStr (g.N x).nextInPage}"))
+  s!"ok L={slotStr k.lists} F={pgStr k.first} Z={pgStr k.last} g={gs} pl={pl}"
+
 def step (s : St) (toks : List String) : St × String :=
   let bad := (s, "bad-op")
   match toks with
@@ -97,6 +121,9 @@ def step (s : St) (toks : List String) : St × String :=
   | ["st"] => (s, s!"ok {s.allocs} {s.bytes} {s.privMmaps} {s.sharedMmaps} {s.live.size} {s.nextPage}")
   | ["cls", c] => match c.toNat? with
     | some c => (s, clsDump s c)
+    | none => bad
+  | ["ptr", c] => match c.toNat? with
+    | some c => (s, ptrDump s c)
     | none => bad
   | "live" :: rest => match parseAddr rest with
     | some (a, []) => match s.live.get? a, s.mem.get? a with
